@@ -6,6 +6,9 @@ import Driver.C11
 import Driver.C03
 import Driver.C18
 import Driver.C12
+import Driver.C08
+import Driver.C09
+import Driver.C15
 import Driver.C19
 import Driver.Ring
 open Driver
@@ -20,6 +23,9 @@ def main (args : List String) : IO UInt32 := do
   | ["C03"] => run C03.handler
   | ["C18"] => run C18.handler
   | ["C12"] => run C12.handler
+  | ["C08"] => run C08.handler
+  | ["C09"] => run C09.handler
+  | ["C15"] => run C15.handler
   | ["C19"] => run C19.handler
   | ["C04"] => run (Ring.handler "C04")
   | ["C05"] => run (Ring.handler "C05")
